@@ -33,6 +33,8 @@ FINDING_CLASSES = {
     "d": ("K13d", "template_binder_spelling_also_free_in_same_template"),
     "f": ("K13f", "pattern_variable_under_extra_ellipsis_depth"),
     "g": ("K13g", "macro_defining_macro"),
+    # module cases only (M does not model modules): class predicate computed from the generated module graph
+    "i": ("K13i", "module_macro_refers_to_only_in_or_prefix_in_import"),
 }
 
 # ------------------------------------------------------------------------------------------------
@@ -361,7 +363,7 @@ class Gen:
         n = rng.randint(1, self.max_macros)
         macros, defs = {}, []
         globs = ["(define (g1 . args) (cons 'g1 args))", "(define (g2 . args) (cons 'g2 args))"]
-        kinds = ["or2", "wrap", "lam", "rec", "ell2", "lit", "dot"]
+        kinds = ["or2", "wrap", "lam", "rec", "ell2", "lit", "dot", "wild", "wildell"]
         if stream in ("b", "mixed"):
             kinds += ["nest", "nest", "mylet"]
         if stream in ("c", "mixed"):
@@ -405,6 +407,13 @@ class Gen:
                 else:
                     defs.append("(define-syntax %s (syntax-rules () [(_ a . r) (list a (quote r))]))" % name)
                     macros[name] = dict(arity=rng.randint(1, 3), kind=kind)
+            elif kind == "wild":
+                # `_` in non-head pattern positions; `_` in the template: quoted, as a lambda binder, handed on
+                defs.append("(define-syntax %s (syntax-rules () [(_ _ x _) (list x '_ ((lambda (_) '(_)) 0))]))" % name)
+                macros[name] = dict(arity=3, kind=kind)
+            elif kind == "wildell":
+                defs.append("(define-syntax %s (syntax-rules () [(_ (_ k) ... . _) (list (quote (k ... _)) (%s '_ k ...))]))" % (name, F))
+                macros[name] = dict(arity=-4, kind=kind)
             elif kind == "nest":
                 inner = [k for k, v in macros.items() if v["kind"] in ("or2", "lam")]
                 if not inner:
@@ -458,6 +467,9 @@ class Gen:
                 for _ in range(rng.randint(0, 2)):
                     inner.append("(%s %s)" % (self.expr(macros, scope, 0), " ".join(self.expr(macros, scope, 0) for _ in range(rng.randint(0, 2)))))
                 groups.append("(%s %s)" % (self.expr(macros, scope, 0), " ".join(inner)))
+            return "(%s %s)" % (name, " ".join(groups))
+        if k == "wildell":
+            groups = ["(%s %s)" % (self.expr(macros, scope, 0), self.expr(macros, scope, depth - 1)) for _ in range(rng.randint(0, 3))]
             return "(%s %s)" % (name, " ".join(groups))
         if k == "lit":
             mid = m["lit"] if rng.random() < 0.6 else self.expr(macros, scope, 0)
@@ -526,7 +538,9 @@ class UnitGen:
         items, used_ell = [], False
         for _ in range(rng.randint(0, 3)):
             r = rng.random()
-            if r < 0.5 or depth <= 0:
+            if r < 0.12:
+                items.append("_")                      # wildcard: matches anything, binds nothing
+            elif r < 0.5 or depth <= 0:
                 items.append(self.var())
             elif r < 0.6:
                 items.append(rng.choice(["1", "#t", "kw"]))
@@ -594,7 +608,7 @@ class UnitGen:
             d = depth + (1 if i + 1 < len(p) and p[i + 1] == "..." else 0)
             if isinstance(x, list):
                 self.reveal(x, d, acc)
-            elif x not in ("1", "#t", "kw", "..."):
+            elif x not in ("1", "#t", "kw", "...", "_"):
                 t = x
                 for _ in range(d):
                     t = "(%s ...)" % t
@@ -606,7 +620,8 @@ class UnitGen:
         p = self.pattern(2, self.max_depth)
         acc = []
         self.reveal(p, 0, acc)
-        definition = "(define-syntax m (syntax-rules (kw) [(_ %s) (quote (%s))] [(_ . other) (quote nomatch)]))" % (
+        # the template also contains the identifier `_` (an ordinary symbol there): it must come out untouched
+        definition = "(define-syntax m (syntax-rules (kw) [(_ %s) (quote (%s _ (_)))] [(_ . other) (quote nomatch)]))" % (
             " ".join(self.show(x) for x in p), " ".join(acc))
         rng = self.rng
         inst = self.instance(p)
@@ -785,6 +800,38 @@ def module_cases(ctx):
                   "(define-syntax or-m (syntax-rules () [(_ a b) (let ((tmp a)) (if tmp tmp b))])) (let ((tmp 5)) (or-m #f tmp))"))
     cases.append(('(require "c13m2.scm") (define tmp 6) (or-m #f tmp)',
                   "(define-syntax or-m (syntax-rules () [(_ a b) (let ((tmp a)) (if tmp tmp b))])) (define tmp 6) (or-m #f tmp)"))
+    # three-module chains C -> B -> user: B's macro refers to a function that B imports from C; every provide
+    # form for that function, every require form in B, and a user identifier of the same spelling
+    n = 0
+    for cprov in ("bare", "contract"):
+        for breq in ("plain", "only-in", "prefix-in"):
+            for mprov in ("bare", "for-syntax"):
+                n += 1
+                cn, bn = "c13c%d.scm" % n, "c13b%d.scm" % n
+                fn = "scale%d" % n
+                prov = fn if cprov == "bare" else "(contract/out %s (->/c number? number?))" % fn
+                mod(cn, "(provide %s other%d)\n(define (%s x) (* 100 x))\n(define (other%d x) (* 7 x))\n" % (prov, n, fn, n))
+                call = fn
+                if breq == "plain":
+                    req = '(require "%s")' % cn
+                elif breq == "only-in":
+                    req = '(require (only-in "%s" %s))' % (cn, fn)
+                else:
+                    req = '(require (prefix-in c: "%s"))' % cn
+                    call = "c:" + fn
+                mac = "scaled%d" % n
+                mp = mac if mprov == "bare" else "(for-syntax %s)" % mac
+                mod(bn, "%s\n(provide %s)\n(define-syntax %s (syntax-rules () [(_ e) (%s e)]))\n" % (req, mp, mac, call))
+                flat_defs = "(define (C::%s x) (* 100 x)) (define-syntax %s (syntax-rules () [(_ e) (C::%s e)]))" % (fn, mac, fn)
+                for user in ("global", "none", "local"):
+                    if user == "global":
+                        body = "(define (%s x) (list 'user x)) (define (c:%s x) (list 'user2 x)) (%s 2)" % (fn, fn, mac)
+                    elif user == "none":
+                        body = "(%s 3)" % mac
+                    else:
+                        body = "(let ((%s (lambda (x) (list 'local x))) (c:%s (lambda (x) (list 'local2 x)))) (%s 4))" % (fn, fn, mac)
+                    cases.append(('(require "%s") %s' % (bn, body), flat_defs + " " + body,
+                                  ("i" if breq != "plain" else "", "%s-%s-%s-%s" % (cprov, breq, mprov, user))))
     return moddir, cases
 
 
@@ -827,21 +874,31 @@ def run(ctx):
     moddir, mcases = module_cases(ctx)
     mod_results = []
     if mcases:
-        inp = "\n".join(m for m, _ in mcases) + "\n"
+        inp = "\n".join(c[0] for c in mcases) + "\n"
         rrc, rout, _ = C.run_bin([harness_bin(), "prog"], inp, timeout=300, env={"C13_MODDIR": moddir})
-        drc, dout, _ = C.run_bin([C.driver_path("c13driver"), "prog"], "\n".join(f for _, f in mcases) + "\n", timeout=300)
-        for (m, f), r, d in zip(mcases, rout.splitlines(), dout.splitlines()):
+        drc, dout, _ = C.run_bin([C.driver_path("c13driver"), "prog"], "\n".join(c[1] for c in mcases) + "\n", timeout=300)
+        rl, dl = rout.splitlines(), dout.splitlines()
+        if len(rl) != len(mcases) or len(dl) != len(mcases):
+            ctx.violation("C13-module-crash.txt", "module stream: harness lines=%d driver lines=%d expected %d\n" % (len(rl), len(dl), len(mcases)), no_input=True)
+        for case, r, d in zip(mcases, rl, dl):
+            m, f = case[0], case[1]
+            cls, label = case[2] if len(case) > 2 else ("", "basic%d" % len(mod_results))
             dd = parse_driver(d)
             s = norm_m(dd.get("valS", ""))
             rv = norm_val(r)
             st.programs += 1
-            mod_results.append({"main": m, "real": r, "S": dd.get("valS", "")})
+            mod_results.append({"main": m, "real": r, "S": dd.get("valS", ""), "class": cls})
             if rv == s:
                 st.real_eq_S += 1
-            else:
-                st.real_ne_S += 1
-                ctx.violation("C13-module-%d.txt" % len(ctx.violations),
-                              "# macro imported from a generated module: real engine != specification\nmodprog %s\n# flattened for S: %s\n# real = %s\n# S = %s\n" % (m, f, r, dd.get("valS", "")))
+                continue
+            st.real_ne_S += 1
+            kid = FINDING_CLASSES[cls][0] if cls else None
+            if kid and kid in known:
+                ctx.known_finding("id=%s class=%s %s" % (kid, FINDING_CLASSES[cls][1], known[kid]))
+                st.known_hits[kid] = st.known_hits.get(kid, 0) + 1
+                continue
+            ctx.violation("C13-module-%s.txt" % label,
+                          "# macro imported from a generated module (chain C -> B -> user): real engine != specification\nmodprog %s\n# flattened for S: %s\n# real = %s\n# S = %s\n# class = %s\n" % (m, f, r, dd.get("valS", ""), cls or "G"))
 
     quick = ctx.quick()
     nprog = 400 if quick else 20000
